@@ -19,7 +19,8 @@ func init() {
 			"(R2) availability-token typestate on establishRegion: the set of regions this establisher made unavailable is tracked through phis; MarkAvailable only on an owned region (a second release is a close of a nil channel: process death), every return leaves the set empty except the client-closed exits, states agree at merges; " +
 			"(R3) every establisher goroutine is started for a region on whose MarkUnavailable() the starter won (true edge) or that it just looked up and marked; every tested MarkUnavailable() starts one on its true edge; MarkAvailable is called only by establishRegion; " +
 			"(R4) after waking up, a waiter re-reads the region's client before using the region; " +
-			"(R5) the primitives: MarkUnavailable creates the channel only on the nil edge under the lock and reports true only then; MarkAvailable swaps and closes under the lock; clientRegionCache.clientDown reads and deletes in one critical section.",
+			"(R5) the primitives: MarkUnavailable creates the channel only on the nil edge under the lock and reports true only then; MarkAvailable swaps and closes under the lock; clientRegionCache.clientDown reads and deletes in one critical section; " +
+			"(R6) the establisher's 'should not happen' panics are unreachable: the probe is built and awaited with a context that cannot end, and the panic on an unknown lookup error is dominated by the tests for every error the lookup can return.",
 		Residue:   "liveness (no request remains blocked once the cluster is stable); data races outside the guarded-field table (that is the race detector's domain); exact interleavings",
 		Technique: "lock-set analysis with caller summaries, token typestate dataflow over SSA with phi renaming, who-may-call tables, dominance",
 		Run:       runC09,
@@ -330,6 +331,66 @@ func runC09(c *kit.Ctx) {
 		}
 		c.Check(good, gr, "returns-region-client", r.Pos(), "the connection returned is reg.Client() of the resolved region", "getRegionAndClientForRPC returns a connection that is not the resolved region's current client")
 	})
+
+	// ---- R6 ---------------------------------------------------------------
+	c.StartRule("R6", "the establisher's 'should not happen' panics are unreachable", 3)
+	{
+		ire := c.Anchor("", "", "isRegionEstablished")
+		if ire != nil {
+			// the probe is built with a context that cannot end: sendBlocking fails only when its context is done
+			ca := &ctxAnalysis{p: p, entries: map[*ssa.Function]bool{}, param: map[*ssa.Parameter]map[string]origin{}}
+			n := 0
+			for _, ng := range kit.Calls(ire, kit.M("hrpc", "", "NewGet")) {
+				n++
+				os := ca.originOf(ng.Common().Args[0], 0)
+				bg := len(os) > 0
+				for _, o := range os {
+					if o.Kind != "background" {
+						bg = false
+					}
+				}
+				c.Check(bg, ire, "probe-context", ng.Pos(), "the probe request is created with context.Background()", "the probe is created with "+describeOrigins(os)+": when that context ends while the probe is in flight (a region replaced in the cache is marked dead) sendBlocking returns an error and the establisher panics ('should not happen') - the process dies, or the region's waiters are stranded")
+			}
+			for _, sbc := range kit.Calls(ire, kit.M("", "", "sendBlocking")) {
+				// its context argument is the probe's own context
+				cc, ok := kit.Strip(sbc.Common().Args[0]).(*ssa.Call)
+				good := ok && strings.HasSuffix(kit.CalleeName(cc), ".Context")
+				c.Check(good, ire, "probe-wait-context", sbc.Pos(), "the probe is awaited on its own (never ending) context", "the probe is awaited on a context that can end: the 'should not happen' panic becomes reachable")
+			}
+			if n == 0 {
+				c.Unk(ire, "probe", ire.Pos(), "isRegionEstablished no longer builds its probe with hrpc.NewGet")
+			}
+		}
+		// establishRegion's panic on an unknown lookup error: every error lookupRegion can return is handled before it
+		tnf := p.Global("", "TableNotFound")
+		kit.Instrs(est, func(in ssa.Instruction) {
+			pn, ok := in.(*ssa.Panic)
+			if !ok {
+				return
+			}
+			notTNF, notClosed, ctxAlive := false, false, false
+			for _, f := range kit.FactsAt(pn.Block()) {
+				cmp, ok := kit.CanonCmp(f.Cond, f.Pol)
+				if !ok {
+					continue
+				}
+				if cmp.Op == token.NEQ && tnf != nil && (isGlobalLoad(cmp.Y, tnf) || isGlobalLoad(cmp.X, tnf)) {
+					notTNF = true
+				}
+				if cmp.Op == token.NEQ && errClosed != nil && (isGlobalLoad(cmp.Y, errClosed) || isGlobalLoad(cmp.X, errClosed)) {
+					notClosed = true
+				}
+				if cmp.Op == token.EQL && kit.IsNilConst(cmp.Y) {
+					if e, ok := cmp.X.(*ssa.Call); ok && kit.CalleeName(e) == ctxErr {
+						if cc, ok := e.Call.Value.(*ssa.Call); ok && kit.CalleeName(cc) == hrpcRI+"Context" {
+							ctxAlive = true
+						}
+					}
+				}
+			}
+			c.Check(notTNF && notClosed && ctxAlive, est, "lookup-error-panic", posOf(pn), "reached only when the lookup error is neither TableNotFound, nor ErrClientClosed, nor the region's own cancelled context (the only errors lookupRegion returns)", "establishRegion's panic on an 'unknown' lookup error is reachable for an error lookupRegion does return (table gone, client closed or region dead): the establisher goroutine crashes the process")
+		})
+	}
 
 	// ---- R5 ---------------------------------------------------------------
 	c.StartRule("R5", "region/cache primitives", 4)
